@@ -579,23 +579,54 @@ def measurements_of(circ):
 
 
 def parse_remote_exc(e):
-    """(exception class, innermost bqskit frame 'relative/path.py:function') of an error raised inside the runtime."""
+    """(exception class, innermost bqskit frame 'relative/path.py:function', the exception line, rejected) of an error
+    raised by compile().  ``rejected`` = the error was raised by compile()'s own argument checks on the client side
+    (bqskit/compiler/compile.py, before anything was submitted to the runtime) as a ValueError / TypeError: that is a
+    documented refusal of the input (see the Raises section of compile()), not a failure of a compilation."""
     txt = ''
     cur = e
     while cur is not None:
         txt = str(cur) + '\n' + txt
         cur = cur.__cause__
-    txt += ''.join(traceback.format_exception(type(e), e, e.__traceback__))
+    full = ''.join(traceback.format_exception(type(e), e, e.__traceback__))
+    txt += full
     remote = txt.split('The above exception was the direct cause')[0]
     frames = re.findall(r'File "[^"]*?/bqskit/([^"]+)", line \d+, in (\w+)', remote)
     last = [ln for ln in remote.strip().split('\n') if re.match(r'^[A-Za-z_.]+(Error|Exception|Exit)\b', ln)]
+    allframes = re.findall(r'File "[^"]*?/bqskit/([^"]+)", line \d+, in (\w+)', full)
+    rejected = (isinstance(e, (ValueError, TypeError)) and e.__cause__ is None and bool(allframes)
+                and all(f[0] == 'compiler/compile.py' for f in allframes))
     # the innermost frame inside a pass (control-flow passes aside); failing that, the innermost bqskit frame
     inpass = [f for f in frames if f[0].startswith('passes/') and not f[0].startswith('passes/control/')]
     frames = inpass or frames
     where = '%s:%s' % frames[-1] if frames else ''
     line = last[-1] if last else '%s: %s' % (type(e).__name__, str(e)[:200])
     line = re.sub(r'^(TypeError: )(?=AttributeError)', '', line)
-    return line.split(':')[0].strip(), where, line[:300]
+    return line.split(':')[0].strip(), where, line[:300], rejected
+
+
+def exc_msg(excline):
+    """The message of an exception line without its class and without numbers (a key field of a known finding)."""
+    msg = excline.split(':', 1)[1].strip() if ':' in excline else excline
+    return re.sub(r'\d+', '#', msg)[:90]
+
+
+def prefix_connected(model, n):
+    """Input-class descriptor: do the model's first n physical qudits induce a connected subgraph?"""
+    if not model or n <= 1:
+        return True
+    adj = {q: set() for q in range(n)}
+    for a, b in model['edges']:
+        if a < n and b < n and a != b:
+            adj[a].add(b)
+            adj[b].add(a)
+    seen, todo = {0}, [0]
+    while todo:
+        for y in adj[todo.pop()]:
+            if y not in seen:
+                seen.add(y)
+                todo.append(y)
+    return len(seen) == n
 
 
 SYNTH_EPS = 1e-8
@@ -612,6 +643,7 @@ def run_compile_case(case):
     if want_trace:
         rec.install()
     t0 = time.time()
+    c0 = time.process_time()
     res = {'status': 'ok', 'exc': '', 'where': '', 'excline': ''}
     model = mk_model(case['model']) if case.get('model') else None
     inp = mk_input(case)
@@ -627,13 +659,14 @@ def run_compile_case(case):
         with SimCompiler(num_workers=case.get('workers', 2), sched_seed=case.get('sched', 0)) as sc:
             ret = sc.bq_compile(inp, with_mapping=True, **kw)
     except BaseException as e:      # noqa
-        cls, where, line = parse_remote_exc(e)
-        res.update(status='raised', exc=cls, where=where, excline=line)
+        cls, where, line, rejected = parse_remote_exc(e)
+        res.update(status='rejected' if rejected else 'raised', exc=cls, where=where, excline=line)
         ret = None
     finally:
         if want_trace:
             rec.uninstall()
     res['wall'] = round(time.time() - t0, 2)
+    res['cpu'] = round(time.process_time() - c0, 2)       # CPU seconds of this compilation (all threads): load-independent cost
     if ret is None:
         return res
     rets = ret if islist else [ret]
@@ -746,7 +779,7 @@ def sem_case(case, res):
     subs = case['items'] if case['kind'] == 'list' else [case]
     items = [sem_item(dict(s, n=s.get('n', case['n'])), case['radix']) for s in subs]
     if res['status'] != 'ok':
-        return {'status': 'raised', 'items': items, 'results': [], 'creg_size': CREG_SIZE}
+        return {'status': res['status'], 'items': items, 'results': [], 'creg_size': CREG_SIZE}
     results = [{'mr': o['radixes'], 'pi': o['pi'], 'pf': o['pf'], 'bs': o['bs'], 'obs': o['obs'], 'obs_ok': o['obs_ok'],
                 'meas_out': o['meas_out'], 'cregs_out': o['cregs_out']} for o in res['results']]
     return {'status': 'ok', 'items': items, 'results': results, 'creg_size': CREG_SIZE}
@@ -763,8 +796,128 @@ def model_spec(rng, n_circ, radix=2, topos=('line', 'ring', 'star', 'grid', 'tre
 
 def short_result(res):
     """A result without the bulky parts (for details / samples)."""
-    out = {k: res.get(k) for k in ('status', 'exc', 'where', 'excline', 'wall') if k in res}
+    out = {k: res.get(k) for k in ('status', 'exc', 'where', 'excline', 'wall', 'cpu') if k in res}
     if res.get('results'):
         out['results'] = [{'width': o['width'], 'pi': o['pi'], 'pf': o['pf'], 'gate_counts': o['gate_counts'],
                            'meas_out': o['meas_out']} for o in res['results']]
     return out
+
+
+# --------------------------------------------------------------------------- oracle self-test (corrupted observations)
+
+def corrupted_sem_cases(sem_cases):
+    """Corrupted copies of real, accepted observations, each with the clause CompileSem.tla must answer for it.  They are
+    validated in the same TLC batch as the real cases; a corrupted observation that is not rejected with its clause
+    is a machinery failure (the oracle would have lost a clause).  Returns [(name, case, expected clause)]."""
+    import copy
+    out = []
+    have = set()
+
+    def add(name, case, clause):
+        if name not in have:
+            have.add(name)
+            out.append((name, case, clause))
+    for c in sem_cases:
+        if c['status'] != 'ok' or not c['results']:
+            continue
+        it, r = c['items'][0], c['results'][0]
+        if not r['obs_ok']:
+            continue
+        differ = 'semantics-differ' if it['kind'] == 'circuit' else 'target-not-reached'
+        n, N = len(it['r']), len(r['mr'])
+        if len(c['items']) == 1:
+            k = copy.deepcopy(c)
+            k['status'] = 'raised'
+            k['results'] = []
+            add('status-raised', k, 'compile-raised')
+            k = copy.deepcopy(c)
+            k['results'][0]['pi'][0] = N
+            add('initial-mapping-outside-the-circuit', k, 'mapping-out-of-range')
+            k = copy.deepcopy(c)
+            k['results'][0]['pf'] = k['results'][0]['pf'][:-1]
+            add('final-mapping-too-short', k, 'mapping-out-of-range')
+            if n >= 2:
+                k = copy.deepcopy(c)
+                k['results'][0]['pf'][1] = k['results'][0]['pf'][0]
+                add('final-mapping-repeats-a-qudit', k, 'mapping-not-injective')
+            dim = 1
+            for x in r['mr']:
+                dim *= x
+            if dim >= 2:
+                k = copy.deepcopy(c)
+                o = k['results'][0]['obs'][-1]
+                o['idx'] = (o['idx'] + 1) % dim
+                add('%s:one-column-moved' % it['kind'], k, differ)
+            k = copy.deepcopy(c)
+            k['results'][0]['obs'][0]['within'] = False
+            add('%s:column-outside-the-budget' % it['kind'], k, differ)
+            if len(r['obs']) >= 2:
+                k = copy.deepcopy(c)
+                k['results'][0]['obs'][-1]['ph'] = (k['results'][0]['obs'][-1]['ph'] + 6) % exact.PH
+                add('%s:relative-phase-changed' % it['kind'], k, differ)
+            if it['kind'] == 'circuit' and r['meas_out']:
+                k = copy.deepcopy(c)
+                m = k['results'][0]['meas_out'][0]
+                m[0] = (m[0] + 1) % N
+                if N >= 2:
+                    add('measurement-on-another-qudit', k, 'measurement-misplaced')
+                k = copy.deepcopy(c)
+                k['results'][0]['meas_out'][0][2] = (k['results'][0]['meas_out'][0][2] + 1) % CREG_SIZE
+                add('measurement-into-another-bit', k, 'measurement-misplaced')
+                k = copy.deepcopy(c)
+                k['results'][0]['meas_out'] = []
+                add('measurement-dropped', k, 'measurement-misplaced')
+        else:
+            k = copy.deepcopy(c)
+            k['results'] = k['results'][:-1]
+            add('list:one-result-missing', k, 'list-order')
+            if c['items'][0] != c['items'][1] and c['items'][0]['kind'] == c['items'][1]['kind'] and c['items'][0]['r'] == c['items'][1]['r']:
+                k = copy.deepcopy(c)
+                k['results'][0], k['results'][1] = k['results'][1], k['results'][0]
+                add('list:two-results-exchanged', k, 'list-order')
+    return out
+
+
+def validate_with_selftest(spec, cfg, sem, scratch, groups, prop):
+    """par_validate of the real cases plus the corrupted copies; returns (verdicts of the real cases, states,
+    transitions, selftest report).  Raises MachineryError if a corrupted observation is accepted or misjudged."""
+    from harness.common import MachineryError
+    bad = corrupted_sem_cases(sem)
+    verdicts, states, trans, _ = exact.par_validate(spec, cfg, sem + [c for _, c, _ in bad], scratch, groups=groups, chunk=400)
+    real = [v for v in verdicts if v[0] < len(sem)]
+    got = {v[0] - len(sem): v[2] for v in verdicts if v[0] >= len(sem)}
+    report = {}
+    for i, (name, _c, want) in enumerate(bad):
+        report[name] = got.get(i, 'ACCEPTED')
+        if got.get(i) != want:
+            raise MachineryError('%s oracle self-test: corrupted observation %r was judged %r, expected %r' % (prop, name, got.get(i, 'accepted'), want))
+    return real, states, trans, report
+
+
+def run_compile_cases(cases, procs=12):
+    """run_cases(run_compile_case, ...).  With VERIF_COMPILE_CACHE=<dir> (a development aid, off by default) results are
+    kept on disk keyed by (case, content hash of the BQSKit tree under test): a compilation under SimCompiler is a
+    deterministic function of both."""
+    import json
+    from harness import common
+    cdir = os.environ.get('VERIF_COMPILE_CACHE')
+    if not cdir:
+        return run_cases(run_compile_case, cases, procs=procs)
+    os.makedirs(cdir, exist_ok=True)
+    th = tree_hash()
+    paths = [os.path.join(cdir, '%s-%s.json' % (th, common.digest({k: v for k, v in c.items() if k not in ('id', 'timeout', 'cex')}))) for c in cases]
+    results = [None] * len(cases)
+    todo = []
+    for i, p in enumerate(paths):
+        if os.path.exists(p):
+            with open(p) as f:
+                results[i] = json.load(f)
+        else:
+            todo.append(i)
+    fresh = run_cases(run_compile_case, [cases[i] for i in todo], procs=procs)
+    for i, r in zip(todo, fresh):
+        results[i] = r
+        if r['status'] in ('ok', 'raised', 'rejected'):
+            with open(paths[i], 'w') as f:
+                json.dump(r, f)
+    return results
